@@ -218,8 +218,17 @@ pub fn gen_file(t: &mut Tape, fmt: Fmt, game: &str, body_stmts: usize) -> GenFil
                 let colorkey = if g < Game::Th07 && t.chance(1, 2) { "    colorkey: 0xff00ff,\n".to_string() } else { String::new() };
                 let offs = if t.chance(1, 4) { format!("    offset_x: {},\n    offset_y: {},\n", t.below(9), t.below(9)) } else { String::new() };
                 let path2 = if g < Game::Th11 && t.chance(1, 5) { "    path_2: \"subdir/file_a.png\",\n".to_string() } else { String::new() };
-                out.push_str(&format!("entry {{\n    path: {},\n{}    has_data: false,\n    rt_width: {},\n    rt_height: {},\n    rt_format: {},\n    memory_priority: {},\n{}{}{}    sprites: {{{}}},\n}}\n\n",
-                    fmt_str_lit(*t.pick(&["subdir/file.png", "a.png", "@R", "data/ascii/ascii.png", "サブ/画像.png"])), path2, *t.pick(&[512, 256, 1024, 16]), *t.pick(&[512, 128, 1]), *t.pick(&[1, 3, 5, 7]), if g < Game::Th07 { 0 } else { *t.pick(&[10, 0, 1]) }, extra, colorkey, offs, sprites.join(", ")));
+                let path = *t.pick(&["subdir/file.png", "a.png", "@R", "data/ascii/ascii.png", "サブ/画像.png"]);
+                let img = if !path.starts_with('@') && t.chance(1, 3) {
+                    feats.push("image".into());
+                    let (w, h) = (*t.pick(&[4u32, 1, 16, 7, 64]), *t.pick(&[4u32, 2, 16, 5]));
+                    let rt = if t.chance(1, 2) { format!("    rt_width: {},\n    rt_height: {},\n", w.next_power_of_two() * *t.pick(&[1u32, 2]), h.next_power_of_two()) } else { String::new() };
+                    format!("    has_data: \"dummy\",\n    img_width: {},\n    img_height: {},\n    img_format: {},\n{}", w, h, *t.pick(&[1, 3, 5, 7]), rt)
+                } else {
+                    format!("    has_data: false,\n    rt_width: {},\n    rt_height: {},\n    rt_format: {},\n", *t.pick(&[512, 256, 1024, 16]), *t.pick(&[512, 128, 1]), *t.pick(&[1, 3, 5, 7]))
+                };
+                out.push_str(&format!("entry {{\n    path: {},\n{}{}    memory_priority: {},\n{}{}{}    sprites: {{{}}},\n}}\n\n",
+                    fmt_str_lit(path), path2, img, if g < Game::Th07 { 0 } else { *t.pick(&[10, 0, 1]) }, extra, colorkey, offs, sprites.join(", ")));
                 let nscripts = t.below(4);
                 for _ in 0..nscripts {
                     let opts = BodyOpts { max_stmts: body_stmts, registers: !lang.int_regs.is_empty(), control_flow: true, strings_only_safe: true, neg_times: true };
